@@ -115,6 +115,18 @@ fn l4(p: &str, v: u8, src: &[u8], dst: &[u8]) -> (u8, Vec<u8>) {
             m.extend_from_slice(&inner[40..]);
             (0, m)
         }
+        "hbh-err" => {
+            // the same hop-by-hop header, next header ICMPv6, in front of a destination-unreachable message
+            let (_, err) = l4("icmp-err", v, src, dst);
+            let mut s6 = [0u8; 16];
+            let mut d6 = [0u8; 16];
+            s6.copy_from_slice(src);
+            d6.copy_from_slice(dst);
+            let inner = ipv6_packet(s6, d6, 58, 64, &err, true);
+            let mut m = vec![58u8, 0, 0xde, 4, 0, 0, 0, 0];
+            m.extend_from_slice(&inner[40..]);
+            (0, m)
+        }
         "udp-bound" => (17, udp_datagram(5555, 7002, b"datagram-for-bound-port")),
         "syn-bound" => (6, tcp_seg(82, true, false, false)),
         "ns" => {
